@@ -53,6 +53,7 @@ def f1_cells(ctx):
             cls = [n for n, pred in OWNER_CLASSES if pred(b, recv, txt)]
             # receiver rooted in a parameter of another type: look at what callers pass
             leak = None
+            via_caller = []
             for (idx, name, ty) in param_roots(b, recv):
                 if re.search(r'Tokinizer|Session|SyntaxParser|VariableInfo', ty):
                     continue
@@ -65,6 +66,12 @@ def f1_cells(ctx):
                             c2 = touches_config(ae)
                             if c2:
                                 leak = (caller, render(ae)[:120], c2[:2])
+                            else:
+                                at = render(ae)
+                                via_caller.append([n for n, pred in OWNER_CLASSES if pred(cb, ae, at)])
+            if not cls and not leak and via_caller and all(via_caller) and ctx.cg.owner_step(p) is not None:
+                # a private helper writing a cell of its parameter: every call site hands it evaluation-owned data
+                cls = ['%s (passed by the only caller)' % via_caller[0][0]]
             if leak:
                 ctx.finding('F1', '%s/%s/config-owned-via-caller' % (fn_key(p), method),
                             '%s writes a cell of its parameter; caller %s passes configuration-owned data (%s through %s)' % (fn_key(p), fn_key(leak[0]), leak[1], leak[2]), site=t['loc'])
